@@ -8,7 +8,7 @@ generated valid inputs. The other half ("never dies by a signal / sanitizer repo
 option combination", 27 entry points) is NOT a theorem: it would need a model of the whole library. It is searched
 (support only), and every theorem here is therefore `…`-named plainly but the property as a whole is claimed *partial*. -/
 namespace EaselModel.Props.C13
-open EaselModel.Miniapps
+open EaselModel.Miniapps EaselModel.Random
 
 /-! ## FASTA: write ∘ read = id, for every line width -/
 
@@ -350,5 +350,39 @@ What is added here is only that the composition numbers the ORFs through the who
 theorem translate_orf_header (name desc : List Char) (o : EaselModel.Gencode.Orf) :
     (orfRecord name desc o).name = ("orf" ++ toString o.num).toList ∧ (orfRecord name desc o).seq.length = o.aa.length := by
   simp [orfRecord]
+
+/-! ## round 2 additions -/
+
+/-- `esl-sfetch -r -c <to>..<from>` (reversed coordinates AND `-r`): the two reverse-complement steps cancel, the forward
+    sub-sequence `from..to` is returned (DNA text without `U`) -/
+theorem sfetch_r_and_reversed_coords_cancel (s : List Char) (f t : Nat) (h : ∀ c ∈ s, c ∈ dnaTextSyms) :
+    revcompText (revcompText (subseq s f t)) = subseq s f t := by
+  apply revcompText_revcompText
+  intro c hc
+  exact h c (List.mem_of_mem_drop (List.mem_of_mem_take hc))
+
+/-- `esl-shuffle -A -b`: every column of a bootstrap sample is one of the input columns, whatever the generator does
+    (a roll of `n` is below `n`) -/
+theorem bootstrap_columns_from_input {σ : Type} (roll : σ → Nat → Nat × σ) (hroll : ∀ s n, 0 < n → (roll s n).1 < n)
+    (cols : Array (List Char)) (hne : 0 < cols.size) (k : Nat) (s : σ) (acc : List (List Char)) (hacc : ∀ c ∈ acc, c ∈ cols.toList) :
+    ∀ c ∈ (bootstrapCols roll cols k s acc).1, c ∈ cols.toList := by
+  induction k generalizing s acc with
+  | zero => intro c hc; simp only [bootstrapCols, List.mem_reverse] at hc; exact hacc c hc
+  | succ k ih =>
+    unfold bootstrapCols
+    apply ih
+    intro c hc
+    cases List.mem_cons.mp hc with
+    | inr h => exact hacc c h
+    | inl e =>
+      have hlt := hroll s cols.size hne
+      subst e
+      simp [Array.getD, hlt]
+
+example : revcompText (revcompText (subseq "ACGTTGCAAG".toList 3 7)) = "GTTGC".toList := by decide
+
+/-- `easel downsample`: the same selection theorem with the 64-bit generator plugged in -/
+theorem downsample_selects {α : Type} [DecidableEq α] (m : Nat) (items : List α) (g : EaselModel.Random.Rng64) :
+    ∃ l, l.Sublist items ∧ (selectn rollRng64 m items g).Perm l := selectn_selects rollRng64 m items g
 
 end EaselModel.Props.C13
